@@ -169,6 +169,11 @@ def _wrap_fit(orig):
                     before = {}
                 with _Swap(args, kwargs) as s:
                     _silently(orig, self, *s.args, **s.kwargs)
+                    # ... and queried, as a user would between two fits (caches filled by a query must not survive the refit)
+                    for q, k in (("score", 2), ("transform", 1), ("predict", 1)):
+                        f = getattr(self, q, None)
+                        if callable(f) and s.args:
+                            _silently(f, *s.args[:k])
                 # known finding K2 (VoronoiFPS.fit stores the wall-clock calibrated switching point in the constructor
                 # parameter full_fraction, possibly 0, which the next fit rejects) is C09's to report, once; the extra fit
                 # must not plant its timing-dependent consequence into other checks: hyper-parameters are put back
